@@ -51,6 +51,8 @@ def run(ctx):
     import C01
     nf = C01.check_fresh(ctx, prog, classes=('asl::Set', 'asl::HashMap', 'asl::Map', 'asl::Dic', 'asl::HashDic'))
     ctx.floor('R-SHARE value-returning map/set members', nf, 3)
+    import eqrange
+    ctx.floor('R-EQRANGE', eqrange.check(ctx, prog, 'R-EQRANGE', ('asl::Map::operator==',)), 1)
     import retself
     n = retself.check(ctx, prog, 'R-RETSELF', ('asl::Map', 'asl::Dic', 'asl::HashMap', 'asl::HashDic', 'asl::Set'))
     ctx.floor('R-RETSELF members', n, 2)
